@@ -196,15 +196,20 @@ def run_plan(plan: dict) -> dict:
     return info
 
 
+def make_plans(jobspec: dict) -> list:
+    return [draw_plan(derive_rng(jobspec["seed"], "E2R", jobspec["prop"], i), jobspec["prop"], jobspec.get("tier", "quick"),
+                      jobspec.get("design_fraction", 0.1)) for i in range(jobspec["start"], jobspec["start"] + jobspec["count"])]
+
+
 def run_many(jobspec: dict) -> dict:
     outs = []
-    for i in range(jobspec["start"], jobspec["start"] + jobspec["count"]):
-        rng = derive_rng(jobspec["seed"], "E2R", jobspec["prop"], i)
-        plan = draw_plan(rng, jobspec["prop"], jobspec.get("tier", "quick"), jobspec.get("design_fraction", 0.1))
+    for k, plan in enumerate(make_plans(jobspec)):
+        i = jobspec["start"] + k
         r = run_plan(plan)
         r["index"] = i
         if r["status"] == "violation":
             r["plan"] = plan
+            r["jobspec"] = jobspec
         if i % 50:
             r.pop("sample", None)
         outs.append(r)
